@@ -2,7 +2,7 @@
 From Coq Require Import List NArith ZArith.
 From N0 Require Import Base.PyStr Base.PyVal Xpath.Dec Xpath.DecProofs Xpath.Token Xpath.TokenProofs
   Xpath.Find Xpath.FindProofs Xpath.Write Xpath.SpecProofs Xpath.WalkProofs Xpath.TokenizeProofs Xpath.EnumProofs
-  Xpath.FstrProofs Xpath.DeleteProofs Xpath.CreateProofs Xpath.AppendProofs.
+  Xpath.FstrProofs Xpath.DeleteProofs Xpath.CreateProofs Xpath.AppendProofs Xpath.PureProofs.
 Import ListNotations.
 
 (* get / first convert every exception of the resolver that the funnel names
@@ -43,6 +43,18 @@ Theorem C04_item_access_raises_only_allowed : forall fuel root x root' e,
 Proof. exact dict_getitem_raises_allowed. Qed.
 Print Assumptions C04_item_access_raises_only_allowed.
 
+(* "Resolves" = item access returns a value.  Item access has no caller default; the one string on
+   which it answers without a value and without raising is '' on a list root (None), never on a dict. *)
+Theorem C04_list_item_access_default_only_empty : forall fuel root x rl root',
+  list_get fuel root x true rl = Ok (root', LDefault) -> x = [].
+Proof. exact list_getitem_default_only_empty. Qed.
+Print Assumptions C04_list_item_access_default_only_empty.
+
+Theorem C04_dict_item_access_never_default : forall fuel root x root',
+  dict_getitem fuel root x = Ok (root', LDefault) -> False.
+Proof. exact dict_getitem_never_default. Qed.
+Print Assumptions C04_dict_item_access_never_default.
+
 (* Purity, for every string: the tree a resolver call returns is its input unless the
    call raised the "mutated" flag, which only the [new()] branch sets (partial: that the
    flag stays down for new()-free strings is not proved; see DESIGN 5/C04). *)
@@ -61,6 +73,38 @@ Theorem C04_get_pure_partial : forall fuel root x re rl dflt root' r,
   dict_lookup_mutates fuel root x rl = false -> root' = root.
 Proof. exact dict_get_core_pure. Qed.
 Print Assumptions C04_get_pure_partial.
+
+(* Purity without the flag hypothesis.  The only branch of the resolver that writes is [new()].  If one of the
+   letters 'w' / 'n' occurs neither in the string nor in any key of the tree, no token the resolver ever builds
+   (from the caller's string, from the keys it fans out over, from the path string it accumulates and
+   re-tokenises for '..', from the indexes it prints) can be "[new()]", so the flag stays down and the tree
+   is returned as it was: for every fuel, every such tree and every such string, ill-formed ones included,
+   through item access, get and first ([re], [rl] arbitrary), '?' prefix or not.
+   What is left of the "no lookup modifies the tree" clause: strings that do contain both letters —
+   for those the clause is false as stated (Refuted/C04.v: a lookup through [new()] wraps the node). *)
+Theorem C04_lookup_pure_without_letter : forall c0, c0 = 110%N \/ c0 = 119%N ->
+  forall fuel root x re rl root' r,
+  knw c0 root -> nw c0 x -> dict_get fuel root x re rl = Ok (root', r) -> root' = root.
+Proof. exact dict_get_nw. Qed.
+Print Assumptions C04_lookup_pure_without_letter.
+
+Theorem C04_list_lookup_pure_without_letter : forall c0, c0 = 110%N \/ c0 = 119%N ->
+  forall fuel root x re rl root' r,
+  knw c0 root -> nw c0 x -> list_get fuel root x re rl = Ok (root', r) -> root' = root.
+Proof. exact list_get_nw. Qed.
+Print Assumptions C04_list_lookup_pure_without_letter.
+
+Theorem C04_resolver_flag_down_without_letter : forall c0, c0 = 110%N \/ c0 = 119%N ->
+  forall rl fuel root xs par parv fstr root' m F,
+  knw c0 root -> knw c0 parv -> Forall (nw c0) xs -> nw c0 fstr ->
+  find true rl fuel root xs par parv fstr = Ok (root', m, F) -> m = false /\ Fnw c0 F.
+Proof. exact find_nw. Qed.
+Print Assumptions C04_resolver_flag_down_without_letter.
+
+Theorem C04_pure_nonvacuous : knw 119 pure_root /\ nw 119 pure_x /\
+  dict_get (fuel_for pure_root pure_x) pure_root pure_x true true = Ok (pure_root, LVal (Leaf (SInt 1))).
+Proof. exact pure_example. Qed.
+Print Assumptions C04_pure_nonvacuous.
 
 (* Misses derived from real paths are total and pure without any flag: an unknown key
    below a resolved prefix gives IndexError on item access and the default on get/first,
